@@ -396,4 +396,71 @@ def Op.touched : Op → List Nat
   | .call _ _ => []
   | .names _ => []
 
+/-- the handle an operation moves out of (gone afterwards whether the op succeeds or not) -/
+def Op.consumed : Op → Option Nat
+  | .merge _ s => some s
+  | _ => none
+
+/-- the module a registration-like operation registers into -/
+def Op.target : Op → Option Nat
+  | .reg _ h _ _ => some h
+  | .regsub h _ _ _ => some h
+  | .alias h _ _ => some h
+  | .merge d _ => some d
+  | _ => none
+
+/-- "the named entries": what a successful registration-like operation is to add to its target,
+read off the operation and the state before it (`look h` = what handle `h` denotes) -/
+def Op.added (look : Nat → Option (Bool × Tbl)) : Op → Tbl
+  | .reg k _ n tag => [(n, ⟨k.cbKind, tag⟩)]
+  | .regsub _ sub unsub tag => [(unsub, ⟨.unsub, tag⟩), (sub, ⟨.sub, tag⟩)]
+  | .alias h al ex =>
+    match look h with
+    | some (_, t) =>
+      match Tbl.find t ex with
+      | some cb => [(al, cb)]
+      | none => []
+    | none => []
+  | .merge _ src =>
+    match look src with
+    | some (_, o) => o
+    | none => []
+  | _ => []
+
+/-- the precondition the statement names for a failure, on the maps before the operation:
+a taken name / equal subscription names / a missing alias target / a shared name -/
+def Op.conflict (look : Nat → Option (Bool × Tbl)) : Op → Prop
+  | .reg _ h n _ => ∃ im t, look h = some (im, t) ∧ Tbl.find t n ≠ none
+  | .regsub h sub unsub _ =>
+    ∃ im t, look h = some (im, t) ∧ (sub = unsub ∨ Tbl.find t sub ≠ none ∨ Tbl.find t unsub ≠ none)
+  | .alias h al ex => ∃ im t, look h = some (im, t) ∧ (Tbl.find t al ≠ none ∨ Tbl.find t ex = none)
+  | .merge d src =>
+    ∃ im t im' o, look d = some (im, t) ∧ look src = some (im', o) ∧
+      ∃ k, Tbl.find t k ≠ none ∧ Tbl.find o k ≠ none
+  | _ => False
+
+/-- the operation is applicable: its handles are live (distinct for merge) and the function exists
+on that kind of value -/
+def Op.applicable (look : Nat → Option (Bool × Tbl)) : Op → Prop
+  | .reg k h _ _ => ∃ im t, look h = some (im, t) ∧ (k = .sync ∨ im = true)
+  | .regsub h _ _ _ => ∃ t, look h = some (true, t)
+  | .alias h _ _ => ∃ t, look h = some (true, t)
+  | .merge d src => d ≠ src ∧ (∃ x, look d = some x) ∧ (∃ y, look src = some y)
+  | .remove h _ => ∃ t, look h = some (true, t)
+  | _ => True
+
+/-- keys are pairwise distinct -/
+def Tbl.Uniq : Tbl → Prop
+  | [] => True
+  | (k, _) :: r => Tbl.find r k = none ∧ Tbl.Uniq r
+
+/-- the reading of "success adds exactly the named entries" on one table -/
+structure AddsExactly (t added t' : Tbl) : Prop where
+  /-- afterwards a name is bound to the added entry if it is one of the named ones, else as before -/
+  find : ∀ k, Tbl.find t' k = (match Tbl.find added k with | some c => some c | none => Tbl.find t k)
+  /-- nothing was overwritten: the named entries were all unbound before -/
+  fresh : ∀ k, k ∈ Tbl.names added → Tbl.find t k = none
+  /-- keys stay pairwise distinct -/
+  uniq : Tbl.Uniq t'
+
 end Jrpc.Registry
